@@ -166,6 +166,11 @@ def check(prop, tier, seed, replay=None):
         raise V.ToolFailure(f"fam_solver decides C10, not {prop}")
     cfg = TIERS[tier]
     oc = V.Outcome(prop, tier, seed)
+    extra = os.environ.get("VERIF_KNOWN_EXTRA")
+    if extra:
+        # additional open known-finding entries (same format as known_findings.json), for trying an entry out
+        oc.known = {"open": list(oc.known.get("open", [])) + list(json.load(open(extra)).get("open", [])),
+                    "fixed": oc.known.get("fixed", [])}
     workdir = os.path.join(V.BUILD, "work", f"{prop}_{os.getpid()}")
     os.makedirs(workdir, exist_ok=True)
     try:
